@@ -62,7 +62,7 @@ func c02Menu() []sim.TxSpec {
 		stk("U1", "U1", "3R"),
 		stk("U1", "U1", "4R"),
 		unstk("U0", "U0", "V1", 0),
-		wdr("V0", "84"),
+		wdr("V0", "rwd"),
 		wdr("V0", "100000"),
 		tr("W", "U0", "bal-fee"),
 		call("U1", "contract:0", "", "1R"),
@@ -81,6 +81,8 @@ func c02Menu() []sim.TxSpec {
 		unstk("W", "U0", "V1", 0),
 		wdr("V0", "0"),
 		wdr("V0", "1"),
+		wdr("V0", "84"),
+		wdr("V0", "rwd+1"),
 		deploy("U0", counterInit, "1R"),
 		call("W", "contract:1", "", "1R"),
 		with(tr("W", "contract:0", "1R"), g60, "gas 60000"),
